@@ -289,3 +289,26 @@ Theorem C06_sonic_combinations_complete :
       s_check_combinations vk lcs cs qs ev pfs chal vtape = Ok (true, rest, length (group_queries qs)).
 Proof. exact @sonic_lc_complete. Qed.
 Print Assumptions C06_sonic_combinations_complete.
+
+(* Marlin open_combinations -> check_combinations, end to end (same shape as the Sonic theorem; the second premise is the side
+   condition of the single-point theorem C01_marlin_complete, asked of every group) *)
+From PC Require Import Proofs.MarlinBatchComplete Proofs.MarlinLCComplete.
+Theorem C06_marlin_combinations_complete :
+  forall (FO : FieldOps) (FL : FieldLaws FO) ck vk g gam h b D hi n m,
+    KeyOK ck vk g gam h b D hi n m ->
+    (forall z items chal a r,
+        Marlin.open_loop ck z items chal MarlinComplete.oacc0 = Ok (a, r) ->
+        is_hiding (trim (Marlin.oa_r a)) = false -> eval (Marlin.oa_sr a) z = f0) ->
+    forall lcs items cs qs ev chal vtape pfs rest,
+      lm_honest ck g gam b D m (MarlinLC.label_map items) ->
+      ml_agree (MarlinLC.label_map items) (comm_map cs) ->
+      NoDup (map fst lcs) ->
+      (forall l co lab lp st c, In l lcs -> In (co, TPoly lab) (snd l) ->
+          lookup N.compare lab (MarlinLC.label_map items) = Some (lp, st, c) -> lp_bound lp = None) ->
+      (forall pl pt labels lab terms, In (pl, (pt, labels)) (group_queries qs) -> In lab labels -> In (lab, terms) lcs ->
+          lookup qkey_cmp (lab, pt) (evals_map ev) = Some (LC.lc_value (poly_of (MarlinLC.label_map items) pt) terms)) ->
+      (length (group_queries qs) <= length vtape)%nat ->
+      mopen_combinations ck lcs items qs chal = Ok (pfs, rest) ->
+      mcheck_combinations vk lcs cs qs ev pfs chal vtape = Ok (true, rest, length (group_queries qs)).
+Proof. exact @marlin_lc_complete. Qed.
+Print Assumptions C06_marlin_combinations_complete.
